@@ -781,14 +781,22 @@ fn consistent(q: &Q) -> bool {
 }
 
 /// may `new` replace `old` on an enabled reader/writer (only the mutable policies differ)?
-fn mutable_only(old: &Q, new: &Q) -> bool {
-    let strip = |q: &Q| Q { deadline_ns: None, latency_ns: None, user_data: vec![], strength: 0, lifespan_ns: None, tbf_ns: None, autodispose: None, mbt_ms: None, repr: q.repr.clone(), ..q.clone() };
+fn mutable_only(kind: &str, old: &Q, new: &Q) -> bool {
+    // compared in canonical form (defaults made explicit): a QoS taken from the factory default spells things differently
+    let strip = |q: &Q| {
+        let c: Q = serde_json::from_str(&canon(kind, q)).unwrap();
+        // DATA_REPRESENTATION comes from DDS-XTypes; dust-dds does not list it among the immutable policies and the
+        // property does not say which list applies, so a change of it is accepted either way (not judged)
+        Q { deadline_ns: None, latency_ns: None, user_data: vec![], strength: 0, lifespan_ns: None, tbf_ns: None, autodispose: None, mbt_ms: None, repr: None, ..c }
+    };
     strip(old) == strip(new)
 }
 
 #[derive(Clone, Default)]
 struct M37 {
     qos: BTreeMap<(String, u32), Q>,
+    /// factory defaults: ("writer" | "reader") -> QoS new entities and QosKind::Default get
+    defaults: BTreeMap<String, Q>,
 }
 impl SeqModel for M37 {
     fn apply(&mut self, op: &Op) -> A {
@@ -808,7 +816,25 @@ impl SeqModel for M37 {
                 self.qos.insert((kind.to_string(), *id), q.clone());
                 A::Ok
             }
-            Op::SetQos { kind, id, q } if kind == "writer" || kind == "reader" => {
+            Op::SetQos { kind, q, .. } if kind == "publisher-default-writer-qos" || kind == "subscriber-default-reader-qos" => {
+                let ek = if kind.starts_with("publisher") { "writer" } else { "reader" };
+                let mut q2 = q.clone();
+                if ek == "writer" {
+                    q2.tbf_ns = None;
+                }
+                if !consistent(&q2) || (ek == "writer" && q.repr.as_ref().is_some_and(|l| l.len() > 1)) {
+                    return A::Err(E::InconsistentPolicy);
+                }
+                self.defaults.insert(ek.to_string(), q.clone());
+                A::Ok
+            }
+            Op::SetQos { kind, id, q } if kind == "writer" || kind == "reader" || kind == "writer-default" || kind == "reader-default" => {
+                let (kind, q) = match kind.as_str() {
+                    "writer-default" => ("writer".to_string(), self.defaults.get("writer").cloned().unwrap_or_default()),
+                    "reader-default" => ("reader".to_string(), self.defaults.get("reader").cloned().unwrap_or_default()),
+                    _ => (kind.clone(), q.clone()),
+                };
+                let (kind, q) = (&kind, &q);
                 let Some(old) = self.qos.get(&(kind.clone(), *id)).cloned() else { return A::Any };
                 let mut q2 = q.clone();
                 if kind == "writer" {
@@ -820,7 +846,7 @@ impl SeqModel for M37 {
                 if !consistent(&q2) {
                     return A::Err(E::InconsistentPolicy);
                 }
-                if !mutable_only(&old, q) {
+                if !mutable_only(kind, &old, q) {
                     return A::Err(E::ImmutablePolicy);
                 }
                 self.qos.insert((kind.clone(), *id), q.clone());
@@ -834,7 +860,7 @@ impl SeqModel for M37 {
         }
     }
     fn key(&self) -> String {
-        format!("{:?}", self.qos.iter().map(|(k, q)| (k.clone(), serde_json::to_string(q).unwrap())).collect::<Vec<_>>())
+        format!("{:?} {:?}", self.qos.iter().map(|(k, q)| (k.clone(), serde_json::to_string(q).unwrap())).collect::<Vec<_>>(), self.defaults.iter().map(|(k, q)| (k.clone(), serde_json::to_string(q).unwrap())).collect::<Vec<_>>())
     }
 }
 
@@ -896,7 +922,18 @@ fn plan_c37(seed: u64, tier: &str) -> Plan {
     let total = if tier == "quick" { r.usize(6, 24) } else { r.usize(6, 40) };
     for _ in 0..total {
         let c = r.below(n_clients as u64) as usize;
-        match r.weighted(&[3, 4, 3]) {
+        match r.weighted(&[3, 4, 3, 2]) {
+            3 => {
+                // factory defaults and QosKind::Default on an existing entity
+                if r.chance(0.5) || ents.is_empty() {
+                    let writer = r.chance(0.5);
+                    let q = gen_q37(&mut r, writer);
+                    clients[c].push(Op::SetQos { kind: if writer { "publisher-default-writer-qos".into() } else { "subscriber-default-reader-qos".into() }, id: 0, q });
+                } else {
+                    let (k, id, _) = r.pick(&ents).clone();
+                    clients[c].push(Op::SetQos { kind: format!("{k}-default"), id, q: Q::default() });
+                }
+            }
             0 => {
                 let writer = r.chance(0.5);
                 let q = gen_q37(&mut r, writer);
